@@ -106,6 +106,8 @@ func (x *Ex) genTables() string {
 
 	// --- embed
 	x.tableVar(f, "internal/extractor/embed", "relevantImageTags", "relevantImageTags")
+	x.tableVarKV(f, "internal/markup/schemaorg", "schemaTypeURLs", "schemaTypeURLs")
+	x.tableVarKV(f, "internal/markup/schemaorg", "tagAttributeMap", "tagAttributeMap")
 	// the regular expressions the hand-written model spells out (Model/Terms, Model/TextRender)
 	x.regexVars(f, "modelledRegexps", [][2]string{
 		{"internal/pagination", "rxNumber"}, {"internal/pagination", "rxTerms"}, {"internal/pagination", "rxSurroundingDigits"},
